@@ -15,6 +15,9 @@ var c15Exprs = []string{
 	// let: bindings of one let are evaluated in map order
 	"let $x = a, $y = b in [$x, $y]", "let $x = a, $y = $x in [$x, $y]", "let $x = a in let $x = b, $y = $x in [$x, $y]", "let $x = a, $y = b, $z = c in {p: $x, q: $y, r: $z}",
 	"let $x = abs('s'), $y = $nope in $x", "let $x = a, $y = b in let $y = $x, $x = $y in [$x, $y]", "let $b = b, $a = a in o[*].[$a, $b, a]",
+	// a binding that leaked out of its let would be seen by the sibling members evaluated after it (in map order)
+	"let $x = a in {p: $y, q: let $y = b in $y, r: $x}", "let $x = a in {p: let $y = b in $y, q: $y}", "let $b = a, $a = c in let $a = b in {p: $b, q: let $b = c in $b, r: $b}",
+	"{p: let $v = a in $v, q: let $v = b in $v, r: $v}", "let $x = a in {r: [$x, let $x = b in $x, $x], p: $x, q: let $x = c in $x}",
 	// multi-select hash: fields are evaluated and stored in map order
 	"{p: a, q: b}", "{p: a, q: b, r: c, s: o}", "{p: a, p: b}", "{p: a, q: b, p: c}", "o[*].{p: a, q: b}", "{p: a, q: {r: b, s: c}}", "{p: abs('s'), q: $nope}", "{p: a, q: b} == {q: b, p: a}", "m.{p: x, q: y, r: z}",
 	"[{p: a, q: b}, {q: b, p: a}]", "{p: a, q: b}.p", "{p: a, q: b}.q",
